@@ -145,7 +145,63 @@ pub fn gen_cases(rng: &mut impl rand::RngCore, n_random: usize) -> Vec<(String, 
     out
 }
 
-fn check_one(rep: &mut Rep, node: &mut NodeRef, rng: &mut impl rand::RngCore, lab: &str, a: &Assign) {
+/// History leg: after a compared evaluation of `a` on this thread, a call the evaluator REFUSES (a vector of the wrong
+/// length, an unknown or a missing signal name) that carries the values of a related assignment `b` (= `a` with one
+/// or more inputs changed), then `b` itself, compared with the reference like every other case. What a refused call
+/// leaves behind must not show in the next evaluation.
+fn after_refused_call(rep: &mut Rep, node: &mut NodeRef, rng: &mut impl rand::RngCore, lab: &str, a: &Assign) {
+    let mut b = a.clone();
+    let which = rng.gen_range(0..5);
+    match which {
+        0 => b.w.ext = rand_fr(rng),
+        1 => b.w.msg_id = Fr::from(rng.gen_range(0..fr_to_big(&a.w.limit).to_u64_digits().first().copied().unwrap_or(1).max(1))),
+        2 => b.w.x = rand_fr(rng),
+        3 => {
+            b.w.ext = rand_fr(rng);
+            b.w.x = rand_fr(rng);
+            b.w.secret = rand_fr(rng);
+        }
+        _ => {
+            let k = rng.gen_range(0..b.w.path.len());
+            b.w.path[k] = rand_fr(rng);
+        }
+    }
+    let mut bad = to_named(&b);
+    let defect = rng.gen_range(0..5);
+    let dl = match defect {
+        0 => {
+            bad[3].1.pop();
+            "pathElements-one-short"
+        }
+        1 => {
+            bad[3].1.push(Fr::from(7u64));
+            "pathElements-one-more"
+        }
+        2 => {
+            bad.push(("noSuchSignal".to_string(), vec![Fr::from(1u64)]));
+            "unknown-signal"
+        }
+        3 => {
+            bad[4].1.truncate(3);
+            "identityPathIndex-short"
+        }
+        _ => {
+            bad[0].1.push(Fr::from(0u64));
+            "identitySecret-two-values"
+        }
+    };
+    bad.shuffle(rng);
+    let refused = catch(|| rln::circuit::try_calculate_rln_witness(bad.clone(), graph_from_folder()).is_err());
+    match refused {
+        Ok(true) | Err(_) => {
+            rep.count("refused_calls_before_a_compared_evaluation");
+            check_one(rep, node, rng, &format!("after-refused-call:{dl}:changed={which}|{lab}"), &b, false);
+        }
+        Ok(false) => rep.count("malformed_named_inputs_accepted_by_the_evaluator(not judged here)"),
+    }
+}
+
+fn check_one(rep: &mut Rep, node: &mut NodeRef, rng: &mut impl rand::RngCore, lab: &str, a: &Assign, follow_up: bool) {
     rep.ev();
     let r = match node.query_json(to_json(a), false) {
         Ok(r) => r,
@@ -200,10 +256,13 @@ fn check_one(rep: &mut Rep, node: &mut NodeRef, rng: &mut impl rand::RngCore, la
         Ok(_) => rep.violation("witness-vector:depends-on-input-order-or-run", json!({"case": lab, "inputs": to_json(a), "order": shuffled.iter().map(|x| x.0.clone()).collect::<Vec<_>>()})),
         Err(p) => rep.violation(format!("calculate_rln_witness:panic:{}", p.file()), json!({"case": lab, "panic": p.msg})),
     }
+    if follow_up && rng.gen_range(0..4) == 0 {
+        after_refused_call(rep, node, rng, lab.split('=').next().unwrap_or("case"), a);
+    }
 }
 
 pub fn run(rep: &mut Rep) {
-    rep.rule = "46-element input assignments: every input position at every boundary value {0,1,2,2^64(+-1),2^128(+-1),2^192(+-1),2^253,(p+-1)/2,p-2,p-1}, ids around every power of two below 2^16, limits incl. the >2^16 corner, direction-bit patterns, random; assignments the reference generator rejects are counted and skipped; for accepted ones the SHA-256 of zerokit's 5844-vector must equal the reference's, for inputs supplied in shuffled order, and a second evaluation in canonical order must be identical. distinct_nontrivial = distinct labels of reference-accepted cases".into();
+    rep.rule = "46-element input assignments: every input position at every boundary value {0,1,2,2^64(+-1),2^128(+-1),2^192(+-1),2^253,(p+-1)/2,p-2,p-1}, ids around every power of two below 2^16, limits incl. the >2^16 corner, direction-bit patterns, random; assignments the reference generator rejects are counted and skipped; for accepted ones the SHA-256 of zerokit's 5844-vector must equal the reference's, for inputs supplied in shuffled order, and a second evaluation in canonical order must be identical; after every fourth accepted case the same thread makes a call the evaluator refuses (wrong vector length, unknown signal) carrying the values of a related assignment and then evaluates that assignment, compared the same way (a refused call must leave nothing behind). distinct_nontrivial = distinct labels of reference-accepted cases".into();
     rep.assumptions = vec!["rln.wasm under node is the reference generator; SHA-256 collision resistance for the digest comparison".into()];
     let thorough = rep.thorough();
     let mut rng = rng_for(rep.seed, "c05");
@@ -229,7 +288,7 @@ pub fn run(rep: &mut Rep) {
         let mut rng = rng_for(seed, &format!("c05-shard{sh}"));
         for (i, (lab, a)) in cases.iter().enumerate() {
             if i % nsh == sh {
-                check_one(r, &mut node, &mut rng, lab, a);
+                check_one(r, &mut node, &mut rng, lab, a, true);
             }
         }
     });
